@@ -30,7 +30,8 @@ def params(r, beh):
 
 
 def summarize(o):
-    return {"result": list(o["result"]), "is_error": o["is_error"], "writes": len(o["written"]),
+    return {"result": list(o["result"]), "is_error": o["is_error"], "timeout": o["timeout"], "elapsed": o["elapsed"],
+            "max_wait": o["max_wait"], "sleeps": o["sleeps"], "writes": len(o["written"]),
             "sends": sum(1 for t in o["trace"] if t[0] == "send" and t[2] != "notconn"), "want_tid": o["want_tid"], "unit": o["unit"], "fc": o["fc"],
             "expected": o["expected"], "surplus_before": o["surplus_before"], "refused": o["refused"],
             "delivered": [list(m) for m in o["delivered"]], "full_frame": o["full_frame"],
@@ -309,6 +310,8 @@ def failing_txns(pid, desc):
                 ok = ok and expected_ok(kind, t, want)
         else:
             ok = t["sends"] <= 1 + retries
+            ok = ok and t["max_wait"] <= t["timeout"] and \
+                t["elapsed"] <= (t["sends"] + 2) * 4 * t["timeout"] + 10 * sum(t["sleeps"]) + 128
             ok = ok and (res[0] in ("reply", "err") or (res[0] == "bcast" and bcast)
                          or (res == ["raise", "ConnectionExc"] and t["refused"]))
             if not (bcast or t["refused"]):
